@@ -505,8 +505,16 @@ BIG_CASES = [
     ("literal", 1000000, "ok"), ("literalmb", 300000, "ok"), ("classranges", 100000, "ok"), ("classnest", 250, "ok"),
     ("classnest", 100000, "err"), ("qstrings", 50000, "ok"), ("backrefs", 100000, "ok"), ("named", 70000, "err"),
     ("dupnamed", 3000, "ok"), ("catnest", 250, "ok"), ("altnest", 250, "ok"), ("altnest", 100000, "err"),
+    ("countnest", 9, "ok"), ("countnest", 14, "ok"), ("countnest", 40, "ok"), ("countnest", 250, "ok"), ("countnest2", 30, "ok"),
 ]
 BIG_THOROUGH = [("alt", 1000000, "ok"), ("literal", 5000000, "ok"), ("classranges", 1000000, "ok"), ("backrefs", 1000000, "ok"), ("qstrings", 300000, "ok")]
+
+
+def _limit_worker_memory():
+    """16 GiB of address space for a worker: a pattern that makes the compiler allocate without bound ends in an
+    allocation failure (abort) in the worker instead of exhausting the machine."""
+    import resource
+    resource.setrlimit(resource.RLIMIT_AS, (16 << 30, 16 << 30))
 
 
 def c07_big(binary, tier, stats, violations):
@@ -517,7 +525,8 @@ def c07_big(binary, tier, stats, violations):
     for kind, n, want in cases:
         t = time.time()
         try:
-            p = subprocess.run([binary, "big", kind, str(n)], stdout=subprocess.PIPE, stderr=subprocess.PIPE, text=True, timeout=120)
+            p = subprocess.run([binary, "big", kind, str(n)], stdout=subprocess.PIPE, stderr=subprocess.PIPE, text=True, timeout=120,
+                               preexec_fn=_limit_worker_memory)
             rc, out = p.returncode, (p.stdout.strip().splitlines() or [""])[-1]
         except subprocess.TimeoutExpired:
             rc, out = "timeout", ""
